@@ -663,7 +663,7 @@ def sig_of(f, exprs):
     # local numbers (loop-carried values print as ('cycle', n)) are compiler artefacts: not part of a key
     # ... and so is the way a value travelled: `let (a, b) = (x, y); a` is x (tuple packing undone by simplify)
     from ..core import simplify as _simp
-    s = ','.join(re.sub(r"\('(cycle|undef|unknown)',\d+\)", r'\1', re.sub(r'\s+', '', expr_str(strip(norm_arith(norm_refs(_simp(e)))), -6)))[:48] for e in exprs)
+    s = ','.join(re.sub(r"\('(cycle|undef|unknown)',\d+\)", r'\1', re.sub(r'\s+', '', expr_str(strip(norm_arith(norm_refs(_simp(norm_refs(e))))), -6)))[:48] for e in exprs)
     return s
 
 
